@@ -153,6 +153,18 @@ def handle (st : St) (args : List String) (impl : String) : St × Verdict :=
       let cb := compact K nonce b
       (st, cmpModel s!"{showNatList cb.outFull} {showNatList cb.kernFull} {showNatList (sortBy id cb.kernIds)}" impl)
     | _, _ => (st, .unknown)
+  -- the block built from the same transactions handed over in groups (aggregated operands)
+  -- must be the block built from the flat list
+  | ["blockg", _, prev, rout, rkern, gs] =>
+    match parseHex prev, nat? rout, nat? rkern, st.block, (parseGroups gs).bind (fun gs => gs.mapM st.getTxs) with
+    | some prev, some rout, some rkern, some b, some groups =>
+      let r := match aggGroups K groups with
+        | .error e => "inner-err:" ++ showErr e
+        | .ok ts => match fromReward K (ofBE prev) ts rout rkern with
+          | .error e => "err:" ++ showErr e
+          | .ok gb => if sameBlock K gb b then "same" else "diff"
+      (st, cmpSpec r impl)
+    | _, _, _, _, _ => (st, .unknown)
   | ["hydrate", _, nonce, gs] =>
     match nat? nonce, st.block, (parseGroups gs).bind (fun gs => gs.mapM st.getTxs) with
     | some nonce, some b, some groups =>
